@@ -597,3 +597,56 @@ class starmap:
                 return out, t
             except Exception as e:
                 return out, ("error", e)
+
+
+def seen_match(seen, key, comparer):
+    """does the comparer accept one of the stored keys?  They are asked in order (an exception of the comparer propagates)."""
+    for a in seen:
+        if (comparer(a, key) if comparer is not None else a == key):
+            return True
+    return False
+
+
+class distinct:
+    """an element passes iff no earlier element that passed has a key the comparer accepts as equal to its key (keys by
+    key_mapper, default: the element; comparer default: ==); a raising key_mapper / comparer ends the sequence with that error"""
+
+    def init(s):
+        s.seen = []
+        s.failed = False
+
+    def done(s):
+        return s.failed
+
+    def on_next(s, out, x):
+        key = x
+        if s.key_mapper is not None:
+            try:
+                key = s.key_mapper(x)
+            except Exception as e:
+                s.failed = True
+                out.on_error(e)
+                return
+        try:
+            found = seen_match(s.seen, key, s.comparer)
+        except Exception as e:
+            s.failed = True
+            out.on_error(e)
+            return
+        if not found:
+            s.seen.append(key)
+            out.on_next(x)
+
+    @staticmethod
+    def ref(h, t, key_mapper, comparer):
+        out, seen = [], []
+        for x in h:
+            try:
+                k = key_mapper(x) if key_mapper is not None else x
+                dup = any((comparer(a, k) if comparer is not None else a == k) for a in seen)
+            except Exception as e:
+                return out, ("error", e)
+            if not dup:
+                seen.append(k)
+                out.append(x)
+        return out, t
